@@ -395,7 +395,7 @@ def run(rep):
     M.NODE_MONITOR.install()
     # a runaway procedure must not take the machine down
     import resource
-    resource.setrlimit(resource.RLIMIT_AS, (6 * 2 ** 30, 6 * 2 ** 30))
+    resource.setrlimit(resource.RLIMIT_AS, (3 * 2 ** 30, 3 * 2 ** 30))
     env = common.fresh_env()
     fams = sorted(families(env))
     idx = 0
@@ -496,10 +496,50 @@ def run(rep):
                     'for %d nodes, %d for %d nodes (more than 6x when the '
                     'DAG doubles: worse than quadratic)' % (proc, fam, w1, s1, w2, s2),
                     {'proc': proc, 'fam': fam})
+            # ---- (1b) memory held per node must not grow with the depth
+            flattening = (proc in ('simplify', 'nnf', 'prenex', 'aig') and
+                          fam in ('and', 'or', 'not', 'and_flat',
+                                  'or_flat')) or (
+                proc in ('simplify', 'times_distributor') and
+                fam.split('_')[0] in ('plus', 'minus', 'times'))
+            # (bottom-up flattening of a left-deep n-ary chain memoises a
+            # result with k arguments at level k: quadratic by design, see
+            # DESIGN.md; not measured here)
+            if proc != 'construction' and idx % 2 == 0 and not flattening:
+                import tracemalloc
+                peaks = []
+                try:
+                    for d_ in ((300, 600) if quick else (800, 1600)):
+                        e4 = common.fresh_env()
+                        P4 = procedures(e4, cc)
+                        f4 = build_family(e4, fam, d_, diamond=False)
+                        tracemalloc.start()
+                        try:
+                            P4[proc](f4)
+                            peaks.append(tracemalloc.get_traced_memory()[1])
+                        finally:
+                            tracemalloc.stop()
+                    rep.count('memory_growth_measurements')
+                    if peaks[1] > 3.2 * peaks[0] and peaks[1] > 8 * 2 ** 20:
+                        rep.violation(
+                            'C20/superlinear-memory/%s' % proc,
+                            '%s on %s chains: peak memory %.1f MB at the '
+                            'first depth, %.1f MB at twice the depth (more '
+                            'than 3.2x: memory per node grows with the '
+                            'depth)' % (proc, fam, peaks[0] / 2.0 ** 20,
+                                        peaks[1] / 2.0 ** 20),
+                            {'proc': proc, 'fam': fam})
+                except (RecursionError, MemoryError, WorkBudgetExceeded):
+                    pass      # reported by the deep-chain part below
+                except Exception:
+                    pass
             # ---- (2) deep chains under the default recursion limit
             if proc in ('size_TREE_NODES', 'size_DEPTH', 'size_SYMBOLS'):
                 continue
             depth = DEEP
+            if proc == 'size_DAG_NODES':
+                # (quadratic memory, recorded: keep the machine alive)
+                depth = min(DEEP, 4000)
             quadratic = False
             if (proc in ('simplify', 'nnf', 'prenex', 'aig') and
                     fam in ('and', 'or', 'not', 'and_flat', 'or_flat')) or (
@@ -537,10 +577,10 @@ def run(rep):
                                   proc, fam, depth),
                               {'proc': proc, 'fam': fam})
             except MemoryError as e:
-                # (address space limited to 6 GB for the shard)
+                # (address space limited to 3 GB for the shard)
                 rep.violation('C20/memory-exhausted/%s' % proc,
                               '%s on a %s chain of depth %d needs more than '
-                              '6 GB of memory' % (proc, fam, depth),
+                              '3 GB of memory' % (proc, fam, depth),
                               {'proc': proc, 'fam': fam})
             except Exception as e:
                 rep.violation('C20/raises/%s/%s/%s' % (
